@@ -318,11 +318,13 @@ structure LayerMap where
   endian : String
   deriving Inhabited
 
+/-- destinations: custom fields, columns the dissector does not write itself (ip_ttl and dst_mac are written by the IP and Ethernet
+    parsers after the layer's statements were applied), and the two bytes columns that take the extracted slice as it is -/
 def genLayerMaps (pb : List PbField) : G (List LayerMap) := do
   let n ← range 0 6
   let mut out : List LayerMap := []
   for _ in [0:n] do
-    let dest ← if (← chance 5 6) ∧ !pb.isEmpty then (do pure (customDest (← pick pb))) else pick (existingDests.take 7)
+    let dest ← if (← chance 2 3) ∧ !pb.isEmpty then (do pure (customDest (← pick pb))) else if (← chance 1 3) then pick ((existingDests.drop 8).take 2) else pick (existingDests.filter fun d => d.name ≠ "ip_ttl" ∧ d.name ≠ "dst_mac")
     let length ← if isNumeric dest then pick ([1, 3, 4, 7, 8, 12, 16, 24, 32, 33, 48, 64].filter (· ≤ 8 * numericMax dest))
                  else pick [1, 8, 16, 32, 64, 100, 128]
     out := out ++ [⟨← (do if (← chance 1 4) then pick selectorLayerNames else pick documentedLayerNames), ← chance 1 3, ← pick [0, 0, 4, 8, 9, 16, 32, 64, 72, 96, 128, 160, 200, 256], length, dest, ← pick ["", "big", "little"]⟩]
@@ -408,9 +410,39 @@ def genKeyRound (i : Nat) : G (List String) := do
       | none => pure ()
     pure out
 
+/-! ### (e) configurations are isolated from each other -/
+
+/-- a configuration that registers a tunnel parser on a UDP port is compiled; frames to that port are then dissected under the
+    configuration-less default and under another configuration without ports: the registration belongs to the configuration it was
+    written in (expected: what the dissector gives for the frame when no port is registered anywhere) -/
+def genPortsRound (i : Nat) : G (List String) := do
+  let port ← pick [6081, 4789, 6082]
+  let withPorts : RawConfig :=
+    { protobuf := [⟨"vni_x", 2001, "varint", false⟩], ports := [⟨"udp", "dst", port, "geneve"⟩],
+      layers := [{ layer := "udp" ++ toString port, encap := true, offset := 32, length := 24, destination := "vni_x" }] }
+  let plain : RawConfig := { protobuf := [⟨"other", 2002, "varint", false⟩] }
+  let mut out : List String := [cfgOp ("pp" ++ toString (i % 2)) withPorts, "expect @res ok", "cfg pz none", cfgOp "pq" plain, "expect @res ok"]
+  for _ in [0:3] do
+    let inner : Bytes := (← bytesOf 12) ++ [0x08, 0x00] ++
+      [0x45, 0, 0, 28] ++ (← bytesOf 2) ++ [0, 0, 64, 17, 0, 0] ++ (← bytesOf 8) ++ encBE 2 1000 ++ encBE 2 2000 ++ [0, 8, 0, 0]
+    let gnv : Bytes := [0, 0, 0x65, 0x58] ++ encBE 3 (← bitsVal 24) ++ [0]
+    let udpLen := 8 + gnv.length + inner.length
+    let d : Bytes := (← bytesOf 12) ++ [0x08, 0x00] ++
+      [0x45, 0] ++ encBE 2 (20 + udpLen) ++ (← bytesOf 2) ++ [0, 0, 63, 17, 0, 0] ++ (← bytesOf 8) ++
+      encBE 2 (← range 1024 60000) ++ encBE 2 port ++ encBE 2 udpLen ++ [0, 0] ++ gnv ++ inner
+    match Producer.parsePacket {} FlowMsg.empty d with
+    | .ok m =>
+      out := out ++ ["call parsepacket pz " ++ hexOf d, "expect res ok", "expect " ++ m.dump,
+                     "call parsepacket pq " ++ hexOf d, "expect res ok", "expect " ++ m.dump]
+    | .error _ => pure ()
+  pure out
+
 def gen (n : Nat) : G (List String) := do
   let mut out : List String := []
   for i in [0:n] do
+    if i % 10 = 9 then
+      out := out ++ (← genPortsRound i)
+      continue
     let r := i % 7
     if r = 0 then out := out ++ (← genGetBytes i) ++ (← genAliasRound i)
     else if r = 1 ∨ r = 2 ∨ r = 3 then out := out ++ (← genElemRound i)
